@@ -29,7 +29,14 @@ def main():
         install(); rc, out = sh(meta["demo_cmd"], wt); res["demo_without_change"] = "pass" if rc == 0 else "FAIL"; uninstall()
         if rc != 0: print(out[-2000:])
         rc, out = sh("git apply " + os.path.join(d, "patch.diff"), wt)
-        if rc != 0: print("patch does not apply:", out); sys.exit(2)
+        if rc != 0:
+            # the regenerated example files of the patch no longer match this base: apply the source part and
+            # regenerate the examples from the patched templates
+            rc, out = sh("git apply --exclude='*.pb.fm.go' " + os.path.join(d, "patch.diff"), wt)
+            if rc != 0: print("patch does not apply:", out); sys.exit(2)
+            rc, out = sh("/verif/tools/regen_examples.sh " + wt, "/verif", timeout=1800)
+            if rc != 0: print("regeneration failed:", out); sys.exit(2)
+            res["regenerated_examples"] = True
         # (1) suite passes with the change
         rc, out = sh("go build ./... && go test -vet=off -count=1 ./...", wt); res["suite_with_change"] = "pass" if rc == 0 else "FAIL"
         if rc != 0: print(out[-2000:])
